@@ -2074,6 +2074,32 @@ pub fn c02_spaces(tier: Tier) -> Vec<Space> {
             }),
         });
     }
+    // upgraded connections that carry 9..60 KB through a handler that returns in mid-stream (V3 per
+    // batch, V4 on a partial frame): whole, in a few big segments, with and without short reads
+    {
+        let n = if tier == Tier::Quick { 400 } else { 20_000 };
+        spaces.push(Space {
+            name: "L.upgrade.bulk",
+            size: n,
+            exhaustive: false,
+            gen: Box::new(move |_idx, seed| {
+                let mut rng = Rng::new(seed);
+                let (cfg, s) = crate::props::c02_bulk_upgraded_streams(&mut rng, 2).remove(rng.usize(2));
+                let k = rng.range(0, 5) as usize;
+                let mut cuts: Vec<usize> = (0..k).map(|_| rng.usize(s.len())).collect();
+                cuts.sort();
+                cuts.dedup();
+                cuts.retain(|x| *x > 0);
+                let wait: Vec<bool> = (0..cuts.len() + 1).map(|_| rng.chance(1, 2)).collect();
+                let steps = cut_steps(0, s.len(), &cuts, &wait);
+                let mut conn = LConn::healthy(&s);
+                if rng.chance(1, 3) {
+                    conn.srv_read_plan = (0..rng.range(1, 40)).map(|_| rng.range(1, 9000) as u16).collect();
+                }
+                Case::L(LCase::single(&cfg, conn, steps, SchedCfg::random(&mut rng, 1)))
+            }),
+        });
+    }
     // differential on the socket path: a stream with one request the service refuses to go on after
     // (not JSON, or ill-typed for the generated code) in the middle, cut at random vs in one segment
     {
